@@ -92,6 +92,9 @@ func c04Jobs(tier string) []string {
 	add("or=sw,devs=zkhl,mss=100,ws=2,pwnd=1000,pfix=1,w=300+900,b=1", 2)
 	// our handshake ACK is lost and the peer repeats its SYN-ACK after the connection is up: the
 	// window field of a SYN is never scaled
+	// D31: a segment straddling the right edge and one wholly beyond it in one batch
+	add("or=w,devs=o,mss=1460,ws=-1,rcvbuf=200,pd=150+100,read=stall,b=1", 1)
+	add("or=w,devs=o,mss=1460,ws=-1,rcvbuf=200,pd=150+100+100,read=eager,b=1", 1)
 	add("or=w,devs=q,mss=100,ws=2,pwnd=300,w=2000,b=1", 1)
 	add("or=w,devs=qkwhl,mss=536,ws=7,pwnd=1000,w=536+3000,b=1", 2)
 	// a loss and a path-MTU report in one history (retransmissions must respect the new MTU)
